@@ -151,14 +151,47 @@ func genFormBody(r *hx.RNG, bad bool) []byte {
 	return []byte(strings.Join(parts, "&"))
 }
 
+// multipart boundaries: RFC 2046 bchars in every spelling (case, digits,
+// punctuation, inner space), as browsers and libraries write them
+var boundarySpellings = []string{
+	"B", "b", "xyzBOUNDARY123", "----WebKitFormBoundary7MA4YWxkTrZu0gW", "---------------------------9051914041544843365972754266",
+	"------------------------d74496d66958873e", "MixedCaseBoundary", "ALLUPPERCASE", "alllowercase", "0123456789",
+	"gc0p4Jq0M2Yt08jU534c0p", "a'b(c)d+e_f,g-h.i/j:k=l?m", "with space inside", "Boundary_With=Equals", "----=_Part_0_123.456",
+	"(parens)", "q?q", "A.b-C_d",
+}
+
+// contentTypeFor writes the header value the way different clients do:
+// media type and parameter name in any case, boundary quoted or not, other
+// parameters before or after it.
+func contentTypeFor(r *hx.RNG, boundary string) string {
+	mt := pick(r, "multipart/form-data", "multipart/form-data", "Multipart/Form-Data", "MULTIPART/FORM-DATA", "multipart/Form-data")
+	pn := pick(r, "boundary", "boundary", "Boundary", "BOUNDARY")
+	val := boundary
+	if strings.ContainsAny(boundary, " ()<>@,;:\\\"/[]?=") || r.Chance(1, 3) {
+		val = "\"" + boundary + "\""
+	}
+	bp := pn + "=" + val
+	sep := pick(r, "; ", ";", ";  ")
+	switch r.Intn(4) {
+	case 0:
+		return mt + sep + "charset=utf-8" + sep + bp
+	case 1:
+		return mt + sep + bp + sep + "charset=UTF-8"
+	default:
+		return mt + sep + bp
+	}
+}
+
 func genMultipart(r *hx.RNG, binary bool, bad bool) (ct string, body []byte) {
 	var b bytes.Buffer
 	w := multipart.NewWriter(&b)
 	// never the writer's own (crypto/rand) boundary: all randomness derives from the seed
-	if r.Chance(1, 2) {
-		w.SetBoundary(pick(r, "B", "xyzBOUNDARY123", "----WebKitFormBoundary7MA4YWxkTrZu0gW"))
-	} else {
-		w.SetBoundary(fmt.Sprintf("%016x%016x", r.Uint64(), r.Uint64()))
+	bnd := boundarySpellings[r.Intn(len(boundarySpellings))]
+	if r.Chance(1, 4) {
+		bnd = fmt.Sprintf("%016x%016X", r.Uint64(), r.Uint64())
+	}
+	if err := w.SetBoundary(bnd); err != nil {
+		w.SetBoundary("fallbackBoundary")
 	}
 	n := r.Range(0, 4)
 	for i := 0; i < n; i++ {
@@ -181,11 +214,7 @@ func genMultipart(r *hx.RNG, binary bool, bad bool) (ct string, body []byte) {
 	if bad && len(body) > 8 {
 		body = body[:len(body)-r.Range(3, 8)]
 	}
-	ct = "multipart/form-data; boundary=" + w.Boundary()
-	if strings.ContainsAny(w.Boundary(), " ()<>@,;:\\\"/[]?=") {
-		ct = "multipart/form-data; boundary=\"" + w.Boundary() + "\""
-	}
-	return ct, body
+	return contentTypeFor(r, w.Boundary()), body
 }
 
 var reqURLs = []string{
@@ -570,6 +599,22 @@ func generate(cfg *hx.Config) {
 		}
 		m.cl = int64(len(m.body))
 		emit("coding", m)
+	}
+	// 3b. multipart uploads in every boundary / Content-Type spelling, each framing
+	for i := 0; i < 90*mult; i++ {
+		r := rng.Fork()
+		m := &msgIn{kind: "REQ", opt: pick(r, "all", "default", "in:"+hx.HexS("MULTIPART/"), "out:"+hx.HexS("text/")),
+			method: "POST", url: "http://example.com/upload", proto: "HTTP/1.1", host: "example.com", hdr: http.Header{}}
+		ct, b := genMultipart(r, false, false)
+		m.hdr["Content-Type"] = []string{ct}
+		m.body = b
+		if r.Chance(1, 2) {
+			m.cl, m.te = -1, []string{"chunked"}
+		} else {
+			m.cl = int64(len(b))
+			m.hdr["Content-Length"] = []string{strconv.Itoa(len(b))}
+		}
+		emit("mp", m)
 	}
 	// 4a. boundary values of the entry fields (cookies with every attribute, statuses,
 	//     versions, header / query values)
